@@ -1,4 +1,4 @@
-(* C01/C02: the combined invariant over step_r, and the statements. *)
+(* C01/C02: the combined invariant over step_r (= step: every storage outcome), and the statements. *)
 From Coq Require Import ZArith List Bool Lia.
 From PDV Require Import lib.Base gen.Gen_C01 model.C01_Tso proof.C01_Ctl proof.C01_Win proof.C01_Rec.
 Import ListNotations.
@@ -60,20 +60,17 @@ Lemma ctl_bump s : Ctl s -> Ctl (bump s).
 Proof. intros [E2 NONE FL SYN UR PEND]. constructor; auto. Qed.
 
 Lemma win_bump s : Win s -> Win (bump s).
-Proof. intros I. apply (win_ext s); auto. Qed.
+Proof. intros I. apply (win_ext s); auto 10. Qed.
 
 Lemma step_bump s l s' : step s l = Some s' -> exists s1, step0 s l = Some s1 /\ s' = bump s1.
 Proof. unfold step. destruct (step0 s l) as [s1|]; [|discriminate]. intros H; inj. exists s1. auto. Qed.
 
-Lemma allowed_of_step_r s l s' : step_r s l = Some s' -> allowed l /\ step s l = Some s'.
-Proof.
-  unfold step_r. destruct (no_unacked_save l) eqn:E; [|discriminate]. intros H. split; [|exact H].
-  destruct l; cbn; auto; destruct o; cbn in *; auto; discriminate.
-Qed.
+Lemma step_of_step_r s l s' : step_r s l = Some s' -> step s l = Some s'.
+Proof. unfold step_r. auto. Qed.
 
 Theorem inv_step_r s l s' : Inv s -> step_r s l = Some s' -> Inv s'.
 Proof.
-  intros [C G Wn R F] H. destruct (allowed_of_step_r _ _ _ H) as [A H1].
+  intros [C G Wn R F] H. pose proof (step_of_step_r _ _ _ H) as H1.
   destruct (step_bump _ _ _ H1) as (s1 & H0 & ->).
   constructor.
   - apply ctl_bump. eapply ctl_step0; eauto.
@@ -133,7 +130,7 @@ Proof. intros I H. apply (r_e1 _ (i_rec _ I) _ H). Qed.
 
 Lemma window_monotone s l s' : Inv s -> step_r s l = Some s' -> opt_le (W s) (W s').
 Proof.
-  intros [C G Wn R F] H. destruct (allowed_of_step_r _ _ _ H) as [A H1].
+  intros [C G Wn R F] H. pose proof (step_of_step_r _ _ _ H) as H1.
   destruct (step_bump _ _ _ H1) as (s1 & H0 & ->). cbn. eapply wmono_step0; eauto.
 Qed.
 
